@@ -98,9 +98,11 @@ where
         let v: F = rng.sample(StandardNormal);
         let y = mu * v * v;
 
-        let mu_2l = mu / (F::from(2.).unwrap() * l);
-
-        let x = mu + mu_2l * (y - (F::from(4.).unwrap() * l * y + y * y).sqrt());
+        // The smaller root mu + mu / (2 l) * (y - sqrt(4 l y + y^2)) = mu / (sqrt(z) + sqrt(1 + z))^2
+        // with z = y / (4 l): the difference cancels catastrophically when l is small against y
+        let z = y / (F::from(4.).unwrap() * l);
+        let t = z.sqrt() + (F::one() + z).sqrt();
+        let x = mu / (t * t);
 
         let u: F = rng.random();
 
